@@ -214,6 +214,7 @@ func vArbitraryF(n int, unbuffered int, fullMaps bool) *vEnv {
 	vAssume(d.feedbackLimit >= 1)
 	e.d = d
 	vKnownFields(d, "opts breaker graceful inputs priorities inputAdds inputRmvs actual strategic tactic uncrowded useful feedbackLimit interrupter err")
+	vKnownFields(&common.Input[int]{}, "Channel Drained") // per-input state (e.g. a held item) added by a change is outside the invariant built here
 	e.G = make([]uint, n)
 	present := 1
 	if !e.fullMaps {
